@@ -38,6 +38,15 @@ CHECKS = {
                 'time) over sampled API views after state-triggered fault scripts',
                 text='liveness restated as bounded progress after disturbances stop; verdict in logical ticks, never '
                      'wall-clock', ref='8/C08', note=TRUST_L3),
+    'C09': dict(engine=ENGINE_L3, technique='runtime monitoring: online oracle at every stop request emission against '
+                'the true process states and the stop plans (hooks on the Stopper entry points), offline exactly-once '
+                'check of the supervisor.restart / shutdown orders over the recorded RPC history',
+                text='held at every stop request observed and on every closing phase, except the listed known finding '
+                     '(Master leaving before its last publications are delivered)', ref='8/C09', note=TRUST_L3),
+    'C10': dict(engine=ENGINE_L3, technique='runtime monitoring: per-tick bounded-progress oracle over the status API '
+                'under a lossy channel (dropped PROCESS publications), hostile process behaviours and failpoints',
+                text='liveness restated as a bound in ticks after the last request; held on K executions except the '
+                     'listed known finding (wait_exit job whose EXITED event is lost)', ref='8/C10', note=TRUST_L3),
     'C11': dict(engine=ENGINE_L1, technique='runtime monitoring: reference-model monitor compared with the real '
                 'ProcessStatus after every operation of generated histories',
                 text='held on every operation of the generated histories (counts per clause in the evidence)',
